@@ -9,7 +9,14 @@
  *          time as JsonParser_parseString_step) for EVERY state that satisfies the loop condition: per-token functional clauses.
  *
  * Precondition of _parseString from its call sites: _parseValue calls it with _pos < n and _text[_pos] == '"', but _parseObject
- * calls it for the member name after _skipWhitespace() with nothing but _pos <= n.  So the contract requires only _pos <= n.      */
+ * calls it for the member name after _skipWhitespace() with nothing but _pos <= n.  So the contract requires only _pos <= n.
+ *
+ *   P1 cursor monotone and inside the text, also on failure (reported error position inside the input)
+ *   P2 success: opening and closing quote consumed, value is a string
+ *   P3 the decoded string is shorter than the text read (per token: step clause S0d "appends no more than it consumes")
+ *   (P4 length limit: per token, clauses S0d/S0f of the step proof)
+ *   P5 failure sets the error
+ *   P6 no opening quote (or end of input): rejected, cursor unmoved                                                               */
 #define N (self->_text.n)
 #define TXT(i) (self->_text.p[i])
 #define POS (self->_pos)
@@ -21,18 +28,12 @@ bool JsonParser_parseString_contract(JsonParser *self, Json *out)
 JSON_PRE(self) JSON_FRESH(out)
 __CPROVER_requires(POS <= N)
 __CPROVER_assigns(self->_pos, self->_error, *out)
-/* P1 cursor monotone and inside the text, also on failure (reported error position inside the input) */
-__CPROVER_ensures(OLDPOS <= POS && POS <= N)
-/* P2 success: opening and closing quote consumed, value is a string */
-__CPROVER_ensures(RET ==> (POS >= OLDPOS + 2 && TXT(OLDPOS) == QUOTE && TXT(POS - 1) == QUOTE && out->type == JsonType_String))
-/* P3 the decoded string is shorter than the text read (per-token: step clause S0d "appends no more than it consumes") */
-__CPROVER_ensures(RET ==> out->s.n < POS)
-/* P4 length limit: checked before every token, so it is exceeded by at most one token (<= 4 bytes, the longest UTF-8 sequence) */
-__CPROVER_ensures(RET ==> (out->s.n <= self->_limits.stringLengthMax || out->s.n - self->_limits.stringLengthMax <= 4))
-/* P5 failure sets the error */
-__CPROVER_ensures(!RET ==> self->_error != NULL)
-/* P6 no opening quote (or end of input): rejected, cursor unmoved */
-__CPROVER_ensures((OLDPOS == N || TXT(OLDPOS) != QUOTE) ==> (!RET && POS == OLDPOS))
+/* P1 */ __CPROVER_ensures(OLDPOS <= POS && POS <= N)
+/* P2 */ __CPROVER_ensures(RET ==> (POS >= OLDPOS + 2 && TXT(OLDPOS) == QUOTE && TXT(POS - 1) == QUOTE && out->type == JsonType_String))
+/* P3 */ __CPROVER_ensures(RET ==> out->s.n < POS)
+/* (P4 length limit: per token, clauses S0d/S0f of the step proof) */
+/* P5 */ __CPROVER_ensures(!RET ==> self->_error != NULL)
+/* P6 */ __CPROVER_ensures((OLDPOS == N || TXT(OLDPOS) != QUOTE) ==> (!RET && POS == OLDPOS))
 ;
 void h_string(void)
 {
@@ -66,15 +67,23 @@ static inline uint8_t spec_utf8_byte(uint32_t cp, size_t k)
  * (p < n, _text[p] != '"'), an arbitrary string-so-far (length n0, witness byte at the arbitrary index GK) and arbitrary limits.
  * Functional clauses S1-S4 carry the hypothesis "the string including this token is within the limit" (property: valid texts
  * WITHIN THE CONFIGURED LIMITS are accepted). */
-/* The full domain is split into two complementary cases, proved separately (smaller SAT instances, run in parallel):
- *   part 0: the token does NOT start with `\u`       part 1: the token starts with `\u`                                       */
+/* The full domain is split into three complementary cases, proved separately (smaller SAT instances, run in parallel):
+ *   part 0: the token does NOT start with `\u`
+ *   part 1: the token starts with `\u` and is NOT `\u` + four hex digits that form a high surrogate
+ *   part 2: the token starts with `\u` + four hex digits that form a high surrogate (pair or unpaired)                          */
 #ifdef STEP_PART      /* defined per proof in unit.json ("defines") */
 #if STEP_PART == 0
 #define CANARY_BASIC(m) IORA_CANARY(m)
-#define CANARY_UNICODE(m)
+#define CANARY_BMP(m)
+#define CANARY_HI(m)
+#elif STEP_PART == 1
+#define CANARY_BASIC(m)
+#define CANARY_BMP(m) IORA_CANARY(m)
+#define CANARY_HI(m)
 #else
 #define CANARY_BASIC(m)
-#define CANARY_UNICODE(m) IORA_CANARY(m)
+#define CANARY_BMP(m)
+#define CANARY_HI(m) IORA_CANARY(m)
 #endif
 void h_step(void)
 {
@@ -90,7 +99,8 @@ void h_step(void)
   const size_t p = ps._pos, max = ps._limits.stringLengthMax;
   __CPROVER_assume(p < n && T[p] != '"');                 /* loop condition */
   const bool is_u = T[p] == '\\' && p + 1 < n && T[p + 1] == 'u';
-  __CPROVER_assume(part == 1 ? is_u : !is_u);              /* case split, see above */
+  const bool is_hi = is_u && p + 5 < n && spec_hex4_ok(T, p + 2) && spec_is_hi(spec_hex4(T, p + 2));
+  __CPROVER_assume(part == 0 ? !is_u : part == 1 ? (is_u && !is_hi) : is_hi);    /* case split, see above */
   iora_ostr str; str.n = nondet_size_t(); str.gk = (char)nondet_u8();
   const size_t n0 = str.n; const char gk0 = str.gk;
   __CPROVER_assume(n0 <= p);                               /* loop invariant: decoded length <= raw length consumed */
@@ -135,7 +145,7 @@ void h_step(void)
       const unsigned len = spec_utf8_len(u);
       if (n0 + len <= max)
       {
-        CANARY_UNICODE("h_step: \\uXXXX escape");
+        CANARY_BMP("h_step: \\uXXXX escape");
         __CPROVER_assert(cont && q == p + 6, "S3a \\uXXXX: accepted, exactly six bytes consumed");
         __CPROVER_assert(n1 == n0 + len, "S3b \\uXXXX: appended length is the UTF-8 length of the code point");
         __CPROVER_assert(!(GK >= n0 && GK < n0 + len) || (uint8_t)str.gk == spec_utf8_byte(u, GK - n0), "S3c \\uXXXX: appended bytes are the UTF-8 encoding of the code point");
@@ -146,7 +156,7 @@ void h_step(void)
       const uint32_t cp = 0x10000 + ((u - 0xD800) << 10) + (spec_hex4(T, p + 8) - 0xDC00);
       if (n0 + 4 <= max)
       {
-        CANARY_UNICODE("h_step: surrogate pair");
+        CANARY_HI("h_step: surrogate pair");
         __CPROVER_assert(cont && q == p + 12, "S4a surrogate pair: accepted, exactly twelve bytes consumed");
         __CPROVER_assert(n1 == n0 + 4, "S4b surrogate pair: four bytes appended");
         __CPROVER_assert(!(GK >= n0 && GK < n0 + 4) || (uint8_t)str.gk == spec_utf8_byte(cp, GK - n0), "S4c surrogate pair: appended bytes are the UTF-8 encoding of the supplementary code point");
@@ -154,13 +164,16 @@ void h_step(void)
     }
     else
     { /* unpaired surrogate: RFC 8259 section 8.2 leaves the behaviour open; only S0 applies */
-      CANARY_UNICODE("h_step: unpaired surrogate");
+      CANARY_BMP("h_step: unpaired low surrogate");
+      CANARY_HI("h_step: unpaired high surrogate");
     }
   }
   else
   { /* backslash followed by end of input, by a byte that starts no escape, or \u without four hex digits: not a valid text.
        The property demands no particular verdict, only S0 (inside the input, error set when it fails). */
+#if STEP_PART != 2
     IORA_CANARY("h_step: malformed escape");
+#endif
   }
 }
 #endif
